@@ -2,6 +2,7 @@
 mode dispatch (which function runs under which argparse destinations)."""
 from .core import AnalysisError
 from .interp import Interpreter
+from .pelx import stops_always
 from .terms import Const, Sym, Op, Ite, Ref, TRUE, walk, subst, and_, not_, is_const
 
 PT = "pel.peltool.peltool."
@@ -109,7 +110,7 @@ class FullMain:
         self.first_only = {}
         for lid, L in I.loops.items():
             it = subst(L.iter, self.map) if L.iter is not None else None
-            if isinstance(it, Op) and it.op == "call:os.walk" and any(b == TRUE for b in L.stops):
+            if isinstance(it, Op) and it.op == "call:os.walk" and stops_always(L):
                 self.first_only[lid] = L
                 self.map[L.idx] = Const(0)
         self.facts = [(self.norm(p), self.norm(q)) for p, q in I.facts]
